@@ -27,8 +27,9 @@ CONSTANTS Prop,        \* "C16" or "C17": which property this run reports
           CheckProj    \* TRUE: also compare internal projections (the renewal list read from its storage slots)
 
 Trace == LoadTrace("trace.ndjson")
-VARIABLE l
-tvars == <<vars, l>>
+VARIABLES l,
+          sw           \* chain mode: params[staker-switches] (bit 0 delegator paused, bit 1 staker paused)
+tvars == <<vars, l, sw>>
 
 Ev == Trace[l]
 Last == Trace[l - 1]         \* the event that led to the current state (l > 1)
@@ -38,14 +39,14 @@ ResetTo(vs, b0, m0) ==
   /\ val' = [v \in vs |-> EmptyVal] /\ agg' = [v \in vs |-> EmptyAgg] /\ del' = <<>>
   /\ g' = ZeroG /\ aL' = EmptyList /\ qL' = EmptyList /\ ren' = <<>> /\ exits' = <<>>
   /\ eff' = 0 /\ bal' = 0
-  /\ led' = [vdep |-> [v \in vs |-> 0], vwd |-> [v \in vs |-> 0], ddep |-> <<>>, dwd |-> <<>>]
+  /\ led' = [vdep |-> [v \in vs |-> 0], vwd |-> [v \in vs |-> 0], ddep |-> <<>>, dwd |-> <<>>, don |-> 0]
   /\ res' = [op |-> "Init", ok |-> TRUE, msg |-> "", amt |-> 0, a |-> NoVal, d |-> 0, act |-> FALSE, upd |-> FALSE]
 
 SeqToSet(s) == {s[i] : i \in 1..Len(s)}
 
 Init == /\ HWMInit /\ TLCSet(2, 0) /\ Len(Trace) >= 1 /\ Trace[1].e = "Reset"
         /\ InitWith(SeqToSet(Trace[1].vals), Trace[1].block, Trace[1].mbp)
-        /\ l = 2
+        /\ l = 2 /\ sw = 0
 
 Step ==
   \/ Ev.e = "Reset" /\ ResetTo(SeqToSet(Ev.vals), Ev.block, Ev.mbp)
@@ -63,8 +64,77 @@ Step ==
   \/ Ev.e = "SetMBP" /\ SetMBP(Ev.m)
   \/ Ev.e = "Donate" /\ Donate(Ev.x)
   \/ Ev.e = "GenesisHousekeep" /\ block = 0 /\ HousekeepAt(0)
+  \* end of a drain scenario: the driver made everybody leave and withdraw; nothing changes, Drained is checked
+  \/ Ev.e = "DrainCheck" /\ UNCHANGED core
+                         /\ res' = [op |-> "DrainCheck", ok |-> TRUE, msg |-> "", amt |-> 0, a |-> NoVal, d |-> 0, act |-> FALSE, upd |-> FALSE]
 
-Next == l <= Len(Trace) /\ l' = l + 1 /\ Step
+-----------------------------------------------------------------------------
+(* chain mode: one transaction to the real Staker contract = a sequence of clauses executed atomically.  On top of the
+   native operation the wrapper staker.sol / staker_native.go reverts a clause when
+     - a delegation call does not come from the delegator contract (onlyDelegatorContract),
+     - the stake is empty or not a whole number of VET (checkStake),
+     - the staker / delegator is paused (params staker-switches),
+     - PoS is not active and the validator is not an authority endorsed by the sender (native_addValidation),
+     - the sender is a contract that reverts when it is paid ("Transfer failed");
+   a contract sender that re-enters withdrawStake from inside the payment executes a second, nested withdraw. *)
+StakerPaused == (sw \div 2) % 2 = 1
+DelegatorPaused == sw % 2 = 1
+DelegatorOps == {"AddDelegation", "SignalDelegationExit", "WithdrawDelegation"}
+
+WrapperRev(S, c, from) ==
+  \/ (c.e \in DelegatorOps /\ from # "delegator")
+  \/ (c.e \in {"AddValidation", "IncreaseStake", "DecreaseStake", "AddDelegation"} /\ (c.frac \/ c.s = 0))
+  \/ StakerPaused
+  \/ (c.e \in DelegatorOps /\ DelegatorPaused)
+  \/ (c.e = "AddValidation" /\ S.aL.size = 0 /\ (c.auth = NoVal \/ c.auth # from))
+
+Native(S, c, from) ==
+  CASE c.e = "AddValidation" -> OpAddValidation(S, c.a, from, c.p, c.s)
+    [] c.e = "IncreaseStake" -> OpIncreaseStake(S, c.a, from, c.s)
+    [] c.e = "DecreaseStake" -> OpDecreaseStake(S, c.a, from, c.s)
+    [] c.e = "SignalExit" -> OpSignalExit(S, c.a, from, block)
+    [] c.e = "WithdrawStake" -> OpWithdrawStake(S, c.a, from, block)
+    [] c.e = "SetBeneficiary" -> OpSetBeneficiary(S, c.a, from, c.ben)
+    [] c.e = "AddDelegation" -> OpAddDelegation(S, c.a, c.s, c.m, block)
+    [] c.e = "SignalDelegationExit" -> OpSignalDelegationExit(S, c.d, block)
+    [] c.e = "WithdrawDelegation" -> OpWithdrawDelegation(S, c.d, block)
+
+\* W = [S, eff, bal, led, ok, out]; out = what each clause paid / the delegation id it created
+ApplyClause(W, c, from) ==
+  LET r == IF WrapperRev(W.S, c, from) THEN Rev(W.S, "wrapper") ELSE Native(W.S, c, from)
+      pays == c.e \in {"WithdrawStake", "WithdrawDelegation"}
+      rcv == IF pays /\ Has(c, "rcv") THEN c.rcv ELSE "accept"
+      \* the nested withdraw of a re-entering contract sender
+      r2 == IF r.ok /\ rcv = "reenter" THEN OpWithdrawStake(r.S, c.rv, from, block) ELSE Ok(r.S, 0)
+  IN IF ~r.ok \/ rcv = "revert" \/ ~r2.ok THEN [W EXCEPT !.ok = FALSE]
+     ELSE LET dep  == IF c.e \in {"AddValidation", "IncreaseStake", "AddDelegation"} THEN c.s ELSE 0
+              paid == IF pays THEN r.amt + r2.amt ELSE 0
+              led1 == CASE c.e \in {"AddValidation", "IncreaseStake"} -> [W.led EXCEPT !.vdep[c.a] = @ + c.s]
+                        [] c.e = "AddDelegation" -> [W.led EXCEPT !.ddep = Append(@, c.s), !.dwd = Append(@, 0)]
+                        [] c.e = "WithdrawStake" -> [W.led EXCEPT !.vwd[c.a] = @ + r.amt]
+                        [] c.e = "WithdrawDelegation" -> [W.led EXCEPT !.dwd[c.d] = @ + r.amt]
+                        [] OTHER -> W.led
+              led2 == IF rcv = "reenter" THEN [led1 EXCEPT !.vwd[c.rv] = @ + r2.amt] ELSE led1
+          IN [S |-> r2.S, eff |-> W.eff + dep - paid, bal |-> W.bal + dep - paid, led |-> led2, ok |-> TRUE,
+              out |-> Append(W.out, IF c.e = "AddDelegation" THEN r.amt ELSE paid)]
+
+RECURSIVE FoldTx(_,_,_,_)
+FoldTx(W, cs, k, from) == IF k > Len(cs) \/ ~W.ok THEN W ELSE FoldTx(ApplyClause(W, cs[k], from), cs, k + 1, from)
+
+ChainTx ==
+  LET W == FoldTx([S |-> CUR, eff |-> eff, bal |-> bal, led |-> led, ok |-> TRUE, out |-> <<>>], Ev.cs, 1, Ev.from) IN
+  /\ IF W.ok THEN Commit(W.S) /\ eff' = W.eff /\ bal' = W.bal /\ led' = W.led
+             ELSE UNCHANGED <<val, agg, del, g, aL, qL, ren, exits, eff, bal, led>>
+  /\ res' = [op |-> "ChainTx", ok |-> W.ok, msg |-> "", amt |-> 0, a |-> NoVal, d |-> 0, act |-> FALSE, upd |-> FALSE,
+             out |-> IF W.ok THEN W.out ELSE <<>>]
+  /\ UNCHANGED <<block, mbpParam, mbpMax>>
+
+Next == /\ l <= Len(Trace) /\ l' = l + 1
+        /\ \/ Step
+           \/ Ev.e = "ChainTx" /\ ChainTx
+           \/ Ev.e = "SetSwitches" /\ UNCHANGED core
+                                  /\ res' = [op |-> "SetSwitches", ok |-> TRUE, msg |-> "", amt |-> Ev.v, a |-> NoVal, d |-> 0, act |-> FALSE, upd |-> FALSE]
+        /\ sw' = IF Ev.e = "SetSwitches" THEN Ev.v ELSE IF Ev.e = "Reset" THEN 0 ELSE sw
 Spec == Init /\ [][Next]_tvars
 
 -----------------------------------------------------------------------------
@@ -76,8 +146,8 @@ Totals(v, a) ==
     IF exiting THEN 0 ELSE Weight(ValNextTVL(v), IF AggNextTVL(a) > 0 THEN 200 ELSE 100) + a.lw + a.pw - a.ew>>
 
 MoneyOps == {"AddValidation", "IncreaseStake", "DecreaseStake", "WithdrawStake", "AddDelegation",
-             "SignalDelegationExit", "WithdrawDelegation", "Donate"}
-SetOps == {"SignalExit", "SetBeneficiary", "SetOnline", "SetMBP", "Block", "GenesisHousekeep"}
+             "SignalDelegationExit", "WithdrawDelegation", "Donate", "DrainCheck"}
+SetOps == {"SignalExit", "SetBeneficiary", "SetOnline", "SetMBP", "Block", "GenesisHousekeep", "SetSwitches"}
 
 ResultMismatch(R) ==
   IF R.e = "Reset" THEN {}
@@ -88,6 +158,14 @@ ResultMismatch(R) ==
        \cup (IF R.e = "Block" /\ R.ok /\ Has(R, "act") /\ (res.act # R.act \/ res.upd # R.upd)
              THEN {<<"result.status", res.act, res.upd, R.act, R.upd>>} ELSE {})
        \cup (IF Has(R, "bad") THEN {<<"real-code-error", R.msg>>} ELSE {})
+       \cup (IF R.e = "ChainTx" /\ res.ok /\ R.ok /\
+                 (\E k \in 1..Len(R.cs) : res.out[k] # (IF R.cs[k].e = "AddDelegation" THEN R.cs[k].id ELSE R.cs[k].paid))
+             THEN {<<"result.out", res.out, [k \in 1..Len(R.cs) |-> <<R.cs[k].e, R.cs[k].paid, R.cs[k].id>>]>>} ELSE {})
+       \* the long-lived consensus instance (leader-group cache, total weight) must accept the packer's block
+       \cup (IF R.e = "Block" /\ Has(R, "cons") /\ R.cons # "ok" THEN {<<"consensus-rejected-packer-block", R.cons>>} ELSE {})
+       \cup (IF R.e = "DrainCheck" /\ ~Drained
+             THEN {<<"not-drained", eff, g, bal, led.don, {a \in VS : val[a].lk + val[a].qu + val[a].cd + val[a].wd > 0},
+                     {i \in Dels : del[i].stake > 0}>>} ELSE {})
 
 ValMoney == {"lk", "pu", "qu", "cd", "wd"}
 ValSet == {"st", "end", "ben", "per", "comp", "start", "exitB", "offB", "wt", "prev", "next"}
@@ -141,12 +219,13 @@ SetMismatch(R) ==
 \* a getter of the real code that fails (error or panic) while the state is read is a deviation for both properties
 \* (events recorded on a real chain carry the post-state only on the last event of each block)
 GetterFailed(R) == Has(R, "post") /\ "getterError" \in DOMAIN R.post
+ResultIsOwn(R) == R.e = "ChainTx" \/ ((R.e \in MoneyOps) = (Prop = "C16"))     \* a transaction's outcome: both properties
 Own(R) == IF GetterFailed(R) THEN {<<"getterError", R.post.getterError>>}
           ELSE (IF ~Has(R, "post") THEN {} ELSE IF Prop = "C16" THEN MoneyMismatch(R) ELSE SetMismatch(R))
-               \cup (IF (R.e \in MoneyOps) = (Prop = "C16") THEN ResultMismatch(R) ELSE {})
+               \cup (IF ResultIsOwn(R) THEN ResultMismatch(R) ELSE {})
 Other(R) == IF GetterFailed(R) THEN {}
             ELSE (IF ~Has(R, "post") THEN {} ELSE IF Prop = "C16" THEN SetMismatch(R) ELSE MoneyMismatch(R))
-                 \cup (IF (R.e \in MoneyOps) = (Prop = "C16") THEN {} ELSE ResultMismatch(R))
+                 \cup (IF ResultIsOwn(R) THEN {} ELSE ResultMismatch(R))
 
 \* internal projections: compared because that shows the specification describes THIS code, but a difference with all
 \* observables agreeing is specification drift (exit 2), never a violation (DESIGN section 2)
@@ -179,7 +258,7 @@ T_ClaimsIndependent == [][Ev.e \in {"Reset", "GenesisHousekeep"} \/ A_ClaimsInde
 T_ChangesOnlyAtEpoch == [][Ev.e \in {"Reset", "GenesisHousekeep"} \/ A_ChangesOnlyAtEpoch]_vars
 T_PosNeedsQueue == [][Ev.e \in {"Reset", "GenesisHousekeep"} \/ A_PosNeedsQueue]_vars
 T_AtMostOneExitPerEpoch == [][Ev.e \in {"Reset", "GenesisHousekeep"} \/ A_AtMostOneExitPerEpoch]_vars
-T_EvictionOnlyPastThreshold == [][Ev.e \in {"Reset", "GenesisHousekeep"} \/ A_EvictionOnlyPastThreshold]_vars
+T_EvictionOnlyPastThreshold == [][Ev.e \in {"Reset", "GenesisHousekeep", "ChainTx"} \/ A_EvictionOnlyPastThreshold]_vars
 T_VoluntaryExitAtPeriodEnd == [][Ev.e \in {"Reset", "GenesisHousekeep"} \/ A_VoluntaryExitAtPeriodEnd]_vars
 T_ActivationsWithinMax == [][Ev.e \in {"Reset", "GenesisHousekeep"} \/ A_ActivationsWithinMax]_vars
 T_ActivationIsFifo == [][Ev.e \in {"Reset", "GenesisHousekeep"} \/ A_ActivationIsFifo]_vars
